@@ -17,15 +17,25 @@ OBLIGATIONS = [
     "NanoVerif.C04.glyphName_legal",
     "NanoVerif.C04.glyphName_prefix_rule",
     "NanoVerif.C04.csv_leading_space",
+    "NanoVerif.C10.csv_roundtrip",
+    "NanoVerif.C10.glyphmap_roundtrip",
+    "NanoVerif.C10.fromFilename_recovers",
+    "NanoVerif.C10.glyphName_injective",
+    "NanoVerif.C10.cpName_collides_below_space",
+    "NanoVerif.parseHex_toHex",
 ]
 DESIGN_REF = "DESIGN.md §5 C10"
-LEVEL_TEXT = ("Partial proof. Kernel-decided over inventories re-extracted from config.py on every run: FontConfig fields = keys written = keys "
-              "consumed by load = constructor arguments, every scalar field has a flag (a field forgotten anywhere fails here). Proved: flag > file > "
-              "default for every field; None round-trips through the default; glyph names are legal. Counter-statement proved in the model: a "
-              "file name with a leading space does not survive the CSV reader's skipinitialspace (F2; repaired in /repo by quoting such rows). "
-              "NOT proved: the TOML/CSV/JSON codecs themselves (third party). Those are exercised by differential round trips of the REAL "
-              "functions: config.write -> toml -> config.load on generated FontConfigs (all fields, transform floats, axes/masters) under every "
-              "flag/file/default combination; GlyphMapping.csv_line -> load_from over hostile file names (also vs the Lean CSV model); "
+LEVEL_TEXT = ("Proof for the CSV, file-name and glyph-name parts; partial for TOML/JSON. Proved in Lean for ALL inputs: (1) csv_roundtrip — for every "
+              "non-empty row of arbitrary strings (leading spaces, commas, quotes, unicode) the skipinitialspace reader applied to csv_line's "
+              "output returns the row; glyphmap_roundtrip adds that the '%04x' fields parse back to the code points; (2) fromFilename_recovers — "
+              "`emoji_u` + hex joined by `_` + `.svg` decodes to exactly the printed sequence, any length; parseHex_toHex; (3) glyphName_injective "
+              "— sequences over scalar values above U+0020 with un-hashed names get distinct names (and the bound U+0020 is sharp: "
+              "cpName_collides_below_space); glyph names are legal; (4) flag > file > default for every field; None round-trips. Kernel-decided "
+              "over inventories re-extracted from config.py on every run: FontConfig fields = keys written = keys consumed by load = constructor "
+              "arguments, every scalar field has a flag. The Lean csv writer/reader, csv_line, '%04x', from_filename and glyph_name models are "
+              "tied to the real functions by exact differential runs. NOT proved: the TOML and JSON codecs (third party) — exercised by "
+              "differential round trips of the REAL functions: config.write -> toml -> config.load on generated FontConfigs (all fields, "
+              "transform floats, axes/masters, source names with glob characters) under every flag/file/default combination; "
               "ReusableParts.to_json -> from_json; ninja response-file expansion.")
 LEVEL_NOTE = "toml, csv, json, shlex are third party: transcribed (csv) or observed. Trusted: Lean kernel, harness."
 TECHNIQUE = "kernel-decided inventory theorem over tables regenerated from source + Lean precedence proof + differential round trips of the real codecs"
@@ -174,12 +184,22 @@ def suite_csv(ctx, res, n):
             meta.append(("w", line, row))
             ops.append({"op": "csv-read", "line": line})
             meta.append(("r", line, row))
+            if cps:
+                ops.append({"op": "hex4", "cps": [str(c) for c in cps]})
+                meta.append(("h", line, [f"{c:04x}" for c in cps]))
     import csv
     for (kind, line, row), m in zip(meta, ctx.driver.run(ops)):
         if kind == "w":
-            # QUOTE_ALL rows (leading-space repair) are a different, equally valid encoding: compare through the real reader instead
-            if m.get("line") != line and next(csv.reader([line])) != next(csv.reader([m.get("line", "")])):
-                res.add_tie_break("csv writer", {"row": row}, m, line)
+            # the model of csv_line (QUOTE_ALL when a field starts with a space, else QUOTE_MINIMAL) must give the same characters
+            if m.get("line") != line:
+                res.add_tie_break("csv_line", {"row": row}, m, line)
+            f = io.StringIO()
+            csv.writer(f, lineterminator="").writerow(row)
+            if m.get("minimal") != f.getvalue():
+                res.add_tie_break("csv writer (QUOTE_MINIMAL)", {"row": row}, m, f.getvalue())
+        elif kind == "h":
+            if m.get("hex") != row or [int(x, 16) for x in row] != [int(v) for v in m.get("back", [])]:
+                res.add_tie_break("'%04x' formatting / int(.,16)", {"hex": row}, m, row)
         else:
             real = next(csv.reader([line], skipinitialspace=True))
             if m.get("row") != real:
